@@ -30,10 +30,21 @@ type c15Proc struct {
 	starts, ends, shuts, flushes int
 }
 
-func (p *c15Proc) OnStart(_ context.Context, s ReadWriteSpan) { p.starts++; p.l.ev = append(p.l.ev, p.id+".OnStart") }
-func (p *c15Proc) OnEnd(ReadOnlySpan)                         { p.ends++; p.l.ev = append(p.l.ev, p.id+".OnEnd") }
-func (p *c15Proc) Shutdown(context.Context) error             { p.shuts++; p.l.ev = append(p.l.ev, p.id+".Shutdown"); return nil }
-func (p *c15Proc) ForceFlush(context.Context) error           { p.flushes++; p.l.ev = append(p.l.ev, p.id+".ForceFlush"); return nil }
+func (p *c15Proc) OnStart(_ context.Context, s ReadWriteSpan) {
+	p.starts++
+	p.l.ev = append(p.l.ev, p.id+".OnStart")
+}
+func (p *c15Proc) OnEnd(ReadOnlySpan) { p.ends++; p.l.ev = append(p.l.ev, p.id+".OnEnd") }
+func (p *c15Proc) Shutdown(context.Context) error {
+	p.shuts++
+	p.l.ev = append(p.l.ev, p.id+".Shutdown")
+	return nil
+}
+func (p *c15Proc) ForceFlush(context.Context) error {
+	p.flushes++
+	p.l.ev = append(p.l.ev, p.id+".ForceFlush")
+	return nil
+}
 
 type c15Exp struct {
 	l        *c15Log
@@ -50,7 +61,11 @@ func (e *c15Exp) ExportSpans(_ context.Context, s []ReadOnlySpan) error {
 	e.l.ev = append(e.l.ev, fmt.Sprintf("E.Export(%d)", len(s)))
 	return nil
 }
-func (e *c15Exp) Shutdown(context.Context) error { e.shuts++; e.l.ev = append(e.l.ev, "E.Shutdown"); return nil }
+func (e *c15Exp) Shutdown(context.Context) error {
+	e.shuts++
+	e.l.ev = append(e.l.ev, "E.Shutdown")
+	return nil
+}
 
 var c15Ops = []string{"Reg1", "Reg2", "Unreg1", "Unreg2", "UnregNever", "SpanOld", "SpanNew", "Flush", "Shutdown", "ShutdownC"}
 var c15Variants = []string{"rec", "simple(E)", "simple(nil)", "batch(E)", "batch(nil)"}
@@ -78,12 +93,14 @@ func c15Seq(variant string, ops []string) func(x *sched.Exec) {
 		old := tp.Tracer("old")
 		// model
 		var members []string
-		reg := map[string]bool{}   // ever registered
-		unreg := map[string]bool{} // unregistered (must have been shut down exactly once)
-		shutOK := false            // a provider Shutdown returned nil
-		shutTried := false         // a provider Shutdown was called (whatever it returned)
+		regCalled := map[string]bool{} // RegisterSpanProcessor was called for it (whatever the provider did with it)
+		reg := map[string]bool{}       // ever registered
+		unreg := map[string]bool{}     // unregistered (must have been shut down exactly once)
+		shutOK := false                // a provider Shutdown returned nil
+		shutTried := false             // a provider Shutdown was called (whatever it returned)
+		shutFailed := false            // a provider Shutdown returned an error (cut short by its context)
 		totalSpans := 0
-		spansWhileP1 := 0          // spans ended while the stock processor p1 was a member and the provider live
+		spansWhileP1 := 0 // spans ended while the stock processor p1 was a member and the provider live
 		procOf := func(id string) SpanProcessor {
 			if id == "p1" {
 				return p1
@@ -97,9 +114,10 @@ func c15Seq(variant string, ops []string) func(x *sched.Exec) {
 			switch op {
 			case "Reg1", "Reg2":
 				id := "p" + op[3:]
-				if reg[id] {
+				if regCalled[id] {
 					continue // "registered once": re-registration is outside the property
 				}
+				regCalled[id] = true
 				tp.RegisterSpanProcessor(procOf(id))
 				if !shutTried {
 					reg[id] = true
@@ -192,6 +210,9 @@ func c15Seq(variant string, ops []string) func(x *sched.Exec) {
 				}
 				err := tp.Shutdown(ctx)
 				shutTried = true
+				if err != nil {
+					shutFailed = true
+				}
 				if err == nil {
 					shutOK = true
 				} else if op == "Shutdown" {
@@ -234,12 +255,18 @@ func c15Seq(variant string, ops []string) func(x *sched.Exec) {
 						}
 					}
 					if n != 1 {
-						x.Fail("C15|registered-processor-not-shut-down-after-successful-Shutdown", "provider Shutdown returned nil; %s (registered earlier) was shut down %d times (%s)", id, n, where(i))
+						class := ""
+						if shutFailed {
+							// the processors were asked to shut down by the earlier call; the ones that shut
+							// down asynchronously (batch, simple around an exporter) may still be at it
+							class = "|after an earlier Shutdown was cut short by its context"
+						}
+						x.Fail("C15|registered-processor-not-shut-down-after-successful-Shutdown"+class, "provider Shutdown returned nil; %s (registered earlier) was shut down %d times (%s)", id, n, where(i))
 					}
 				}
 				// spans ended while the batch processor was certainly registered must all have been
 				// exported; spans ended while the state was unspecified (after a failed Shutdown) may be
-				if variant == "batch(E)" && reg["p1"] && (exp.exported < spansWhileP1 || exp.exported > totalSpans) {
+				if variant == "batch(E)" && reg["p1"] && !shutFailed && (exp.exported < spansWhileP1 || exp.exported > totalSpans) {
 					x.Fail("C15|batch-processor-lost-spans-at-shutdown", "provider Shutdown returned nil; batch processor exported %d span(s), %d ended while it was registered, %d ended in total (%s)", exp.exported, spansWhileP1, totalSpans, where(i))
 				}
 			}
